@@ -251,6 +251,24 @@ func TestVerifC18Migrate(t *testing.T) {
 		}
 		doList(fmt.Sprintf("generated[%d]", size), l, near)
 	}
+	// (2b) IDs of different lengths in which one ID is a proper prefix of many others (SIG-9,
+	// SIG-99, SIG-990...): whatever key a paged walk stops at, keys that extend it follow
+	for _, size := range []int{1010, 2121} {
+		if size > 1010 && !vh.Thorough() {
+			continue
+		}
+		var l []detection.Signature
+		for i := 0; i < size; i++ {
+			l = append(l, detection.Signature{ID: fmt.Sprintf("SIG-%d", i), Name: fmt.Sprintf("n%d", i), TopologyHash: fmt.Sprintf("%04x", i%7), FuzzyHash: fmt.Sprintf("F%d", i%3), EntropyScore: float64(i%80) / 10, EntropyTolerance: 0.5})
+		}
+		doList(fmt.Sprintf("prefix-ids[%d]", size), l, func(total int, data []byte) []int {
+			var offs []int
+			for o := max(0, total-40); o < total; o++ {
+				offs = append(offs, o)
+			}
+			return offs
+		})
+	}
 	// (3) malformed menu on a 2-element list
 	base := []detection.Signature{pool[0], pool[2]}
 	good := string(encodeDB(base))
